@@ -14,7 +14,7 @@ fn fmt_stub2(_a: core::fmt::Arguments<'_>) -> String {
 // @harness c11_punch_fallback
 // @props C11 C16 C17
 // @tier quick
-// @cost 60
+// @cost 5
 // @timeout 900
 // @needs F0
 // @desc the whole body of call_fallocate (backend shimmed): when the backend's hole punch succeeds nothing else is sent; when it fails, exactly one write follows, at the same offset, of exactly `len` bytes that are ALL ZERO, and its result is what call_fallocate returns
@@ -54,7 +54,7 @@ fn c11_punch_fallback() {
 // @harness c12_new_refblock
 // @props C12 C03 C18 C08
 // @tier quick
-// @cost 100
+// @cost 66
 // @timeout 1200
 // @needs E0
 // @desc the creation of a new refcount block (tail of ensure_refblock_offset from the placement computation to the end, lifted verbatim; cache insertion shimmed) for the first cluster of a host range that has no refcount block yet: the block is placed at the first cluster of the range it describes (cluster aligned, reserved bits clear), the refcount-table entry points to it and its table block is queued dirty, need_flush is set, the cluster is registered as new (zeroed before its first write), and the slice handed to the cache has the refcount cache's slice size and counts exactly one reference -- the block's own cluster, entry 0 -- and nothing else; key and byte offset of that slice are those of the block's first slice
